@@ -227,6 +227,26 @@ def encode(plans):
     return res
 
 
+def synth_vardct(ctx, n, max_blocks=36):
+    """[(label, container bytes, original JPEG bytes)]: VarDCT images (DCT8 blocks, YCbCr 4:4:4) with a jbrd
+    box, from the synthetic lossless JPEG transcoder of harness/src/synth.rs (driver: harness bin c17e)"""
+    ctx.cargo_build(["c17e"])
+    rng = ctx.rng
+    lines = []
+    for _ in range(n):
+        bw, bh = rng.choice([(1, 1), (2, 2), (3, 2), (4, 4), (5, 3), (6, 6), (9, 4), (33, 1), (17, 3)])
+        while bw * bh > max_blocks:
+            bw, bh = max(1, bw // 2), max(1, bh // 2)
+        lines.append(f"jpeg {rng.randrange(1, 10 ** 6)} {bw} {bh} {rng.choice('isr')} {rng.choice('dzn')} "
+                     f"{rng.choice([0, 0, 2])} {rng.choice(['-', 'e', 'x', 'c'])} emit")
+    out = []
+    for l, o in zip(lines, run_lines_robust([ctx.harness_bin("c17e")], lines, per_line_timeout=60)):
+        w = (o or "").split()
+        if len(w) == 3 and w[0] == "emit":
+            out.append((l, bytes.fromhex(w[1]), bytes.fromhex(w[2])))
+    return out
+
+
 # ---- the script protocol -----------------------------------------------------------------------
 def H(ctx):
     return ctx.harness_bin("c09")
